@@ -135,6 +135,7 @@ class HttpxTransport:
     async def _prepare_headers(
         self,
         current_request_kwargs: dict[str, Any],
+        url: str = "",
     ) -> dict[str, str]:
         """
         Prepares headers for an HTTP request, incorporating default headers,
@@ -176,6 +177,9 @@ class HttpxTransport:
                 added = authenticated_args.get(key)
                 if isinstance(added, dict) and added:
                     current = current_request_kwargs.get(key)
+                    if key == "params" and not current:
+                        # httpx replaces the query of the URL by a non-empty `params`: keep the caller's own query
+                        current = httpx.URL(url).params.multi_items() or current
                     if isinstance(current, (list, tuple)):
                         current_request_kwargs[key] = [*current, *added.items()]
                     else:
@@ -211,7 +215,7 @@ class HttpxTransport:
         """
         # This method handles default headers, request-specific headers, and authentication
         # (an auth plugin may also add query parameters or cookies to kwargs)
-        prepared_headers = await self._prepare_headers(kwargs)
+        prepared_headers = await self._prepare_headers(kwargs, url)
 
         # Prepare request arguments: everything the caller passed, with the prepared headers
         request_args: dict[str, Any] = {k: v for k, v in kwargs.items() if k != "headers"}
